@@ -1096,6 +1096,39 @@ def c14_r8(ctx):
                     break
 
 
+@rule("C14.R10", floor=1)
+def c14_r10(ctx):
+    """The parser sees the file as it is: wherever the rules-file state machine is called, the
+    text handed to it is the text that was read - nothing appended, trimmed or replaced on the
+    way (a newline added to a truncated file turns "end of file inside a section" into "empty
+    line")."""
+    p = _parser(ctx)
+    n = 0
+    alter = ("push", "push_str", "insert", "insert_str", "truncate", "pop", "clear", "replace_range", "retain", "drain", "extend",
+             "trim", "trim_end", "trim_start", "trim_matches", "trim_end_matches", "trim_start_matches", "replace", "replacen",
+             "to_lowercase", "to_uppercase", "strip_suffix", "strip_prefix", "lines")
+    for cs in ctx.P.callers.get(p.id, []):
+        g = cs.fn
+        if g.body.get("in_test"):
+            continue
+        n += 1
+        ctx.saw(g)
+        ctx.inst("parser called from %s" % g.id, cs.where)
+        tv = g.var_family(cs.args[1])
+        to = g.origins_of_operand(cs.args[1])
+        bad = None
+        for c in g.calls:
+            if c.name in alter and c.args and (c.path.startswith(("std::string::String::", "core::str::", "std::str::", "alloc::string::String::"))):
+                av = g.vars_of_operand(c.args[0])
+                if (av and av <= tv) or (c.name in alter[11:] and any(o[0][0] == "call" and o[0][2] == c.bb for o in to)):
+                    bad = c
+        if bad is not None:
+            ctx.viol((g.id, "text-altered-before-parse", bad.name), "the text of a rules file goes through `%s` before it is parsed: what the parser reports (and accepts) is no longer about the file as written" % bad.name, bad.where)
+        else:
+            ctx.ok()
+    ctx.need(n, "a production caller of the rules-file parser")
+
+
 @rule("C14.R9", floor=0, positional=False)
 def c14_r9(ctx):
     """A shared prefix buffer is restored to a saved length: where the bundle code shortens a
